@@ -51,6 +51,13 @@ def figuresJ (cx : NumCtx) (p : Portfolio) : Json :=
     ("totalSupply", ratJ (totalSupply cx p)), ("totalCollateral", ratJ (totalCollateral cx p)),
     ("totalDebt", ratJ (totalDebt cx p)), ("netValue", ratJ (netValue cx p))]
 
+def causeJ (c : Cause) : Json := Json.mkObj [("error", .str c.exc.name), ("cause", .str c.name)]
+
+def optRat (j : Json) (k : String) : Except String (Option Rat) :=
+  match jOpt j k with
+  | none => pure none
+  | some v => do pure (some (← jRatOf v))
+
 end AR
 
 def aaveRiskHandlers : List (String × Handler) := []
@@ -65,7 +72,46 @@ def aaveRiskJHandlers : List (String × JHandler) := [
     let r := liquidate cx p
     pure (Json.mkObj [("state", AR.portfolioJ r.p), ("actions", .arr (r.actions.map AR.actionJ).toArray),
       ("visited", .arr (r.visited.map Json.str).toArray), ("error", AR.excJ r.err), ("outOfFuel", .bool r.outOfFuel),
-      ("before", AR.figuresJ cx p), ("after", AR.figuresJ cx r.p)]))
+      ("before", AR.figuresJ cx p), ("after", AR.figuresJ cx r.p)])),
+  ("borrow", fun j => do
+    let cx := jCtx j
+    let p ← AR.parsePortfolio (← jObj j "state")
+    let tok ← jStr j "tok"
+    let row ← AR.parseRow (← jObj j "row")
+    let amt ← AR.optRat j "amount"
+    match borrow cx p tok row amt with
+    | .ok (p', a) => pure (Json.mkObj [("ok", .bool true), ("state", AR.portfolioJ p'), ("amount", ratJ a), ("after", AR.figuresJ cx p')])
+    | .error c => pure (AR.causeJ c)),
+  ("withdraw", fun j => do
+    let cx := jCtx j
+    let p ← AR.parsePortfolio (← jObj j "state")
+    let tok ← jStr j "tok"
+    let amt ← AR.optRat j "amount"
+    match withdraw cx p tok amt with
+    | .ok (p', a) => pure (Json.mkObj [("ok", .bool true), ("state", AR.portfolioJ p'), ("amount", ratJ a), ("after", AR.figuresJ cx p')])
+    | .error c => pure (AR.causeJ c)),
+  ("changeCollateral", fun j => do
+    let cx := jCtx j
+    let p ← AR.parsePortfolio (← jObj j "state")
+    let tok ← jStr j "tok"
+    let flag ← jBool j "flag"
+    match changeCollateral cx p tok flag with
+    | .ok p' => pure (Json.mkObj [("ok", .bool true), ("state", AR.portfolioJ p'), ("after", AR.figuresJ cx p')])
+    | .error c => pure (AR.causeJ c)),
+  ("maxBorrow", fun j => do
+    let cx := jCtx j
+    let p ← AR.parsePortfolio (← jObj j "state")
+    let row ← AR.parseRow (← jObj j "row")
+    match maxBorrowAmount cx p row with
+    | .ok a => pure (Json.mkObj [("ok", .bool true), ("amount", ratJ a)])
+    | .error c => pure (AR.causeJ c)),
+  ("maxWithdraw", fun j => do
+    let cx := jCtx j
+    let p ← AR.parsePortfolio (← jObj j "state")
+    let tok ← jStr j "tok"
+    match maxWithdrawAmount cx p tok with
+    | .ok a => pure (Json.mkObj [("ok", .bool true), ("amount", ratJ a)])
+    | .error c => pure (AR.causeJ c))
 ]
 
 end Demeter.Drv
